@@ -46,6 +46,32 @@ fn double_spent(a: &Obs, b: &Obs) -> Option<(String, String, u8, u64)> {
     None
 }
 
+fn clocks_concurrent(a: &Clock, b: &Clock) -> bool {
+    let le = |x: &Clock, y: &Clock| x.iter().all(|(k, n)| y.get(k).copied().unwrap_or(0) >= *n);
+    !le(a, b) && !le(b, a)
+}
+
+/// one dot is the current witness of two different NESTED members under the same key in the two states, and the two entries are
+/// concurrent (their observed key witnesses are incomparable): (key, member in a, member in b, actor, counter)
+fn nested_double_spent<S: Subject>(a: &S::St, b: &S::St) -> Option<(String, String, String, u8, u64)> {
+    let (na, nb) = (S::nested_witnesses(a), S::nested_witnesses(b));
+    for (ka, wa, ma) in &na {
+        for (kb, wb, mb) in &nb {
+            if ka != kb || !clocks_concurrent(wa, wb) {
+                continue;
+            }
+            for (m1, ac, n) in ma {
+                for (m2, bc, m) in mb {
+                    if m1 != m2 && ac == bc && n == m {
+                        return Some((ka.clone(), m1.clone(), m2.clone(), *ac, *n));
+                    }
+                }
+            }
+        }
+    }
+    None
+}
+
 fn check_validate_merge<S: Subject>(plan: &Plan, ctx: &Ctx, stats: &mut Stats, misuse: bool) -> Result<(), Fail> {
     let mut sim = new_sim::<S>(plan, &ctx.cfg, stats);
     if misuse && sim.reps.len() >= 2 {
@@ -104,6 +130,13 @@ fn check_validate_merge<S: Subject>(plan: &Plan, ctx: &Ctx, stats: &mut Stats, m
                     // one dot is the current witness of two different elements across the two states
                     if ab.is_ok() {
                         let f = Fail::new(format!("dot ({ac},{n}) is the current witness of {e1} in {na} and of {e2} in {nb}, but validate_merge returned Ok"));
+                        return Err(fail_with(&sim, stats, f));
+                    }
+                    nontrivial = true;
+                } else if let Some((k, m1, m2, ac, n)) = nested_double_spent::<S>(a, b) {
+                    stats.class("misuse: nested double-spent dot under one key, entries concurrent");
+                    if ab.is_ok() {
+                        let f = Fail::new(format!("dot ({ac},{n}) is the current witness of {m1} under {k} in {na} and of {m2} under {k} in {nb} (entries concurrent), but validate_merge returned Ok"));
                         return Err(fail_with(&sim, stats, f));
                     }
                     nontrivial = true;
